@@ -144,15 +144,19 @@ Qed.
 
 
 (* ---------- reduce / accumulate / outer / at on discretized elements, no out ---------- *)
-Arguments byaxis_astype : simpl never.
-Lemma byaxis_astype_dt ds kept d : ts_dt (ds_ts (byaxis_astype ds kept d)) = d.
+Lemma byaxis_astype_ok ds kept d rs :
+  byaxis_astype ds kept d = Ok rs ->
+  ts_dt (ds_ts rs) = d /\ ds_axes rs = pick dummy_ax (ds_axes ds) kept.
 Proof.
-  unfold byaxis_astype. cbn [ds_ts]. destruct (dt_eqb d (ts_dt (ds_ts ds))) eqn:E.
-  - apply dt_eqb_eq in E. cbn. congruence.
-  - destruct (is_floating d); reflexivity.
+  unfold byaxis_astype.
+  destruct (ts_w (ds_ts ds));
+    [| destruct (existsb _ _); try discriminate; destruct (negb _); try discriminate];
+    (destruct (ts_valid _); try discriminate; intros E; inversion E; subst; clear E;
+     cbn [ds_ts ds_axes]; split; [|reflexivity];
+     destruct (dt_eqb d (ts_dt (ds_ts ds))) eqn:Ed;
+     [apply dt_eqb_eq in Ed; cbn; congruence | destruct (is_floating d); reflexivity]).
 Qed.
-Lemma byaxis_astype_axes ds kept d : ds_axes (byaxis_astype ds kept d) = pick dummy_ax (ds_axes ds) kept.
-Proof. reflexivity. Qed.
+Arguments byaxis_astype : simpl never.
 
 (* at most the SHAPE attribute of one buffer differs (same dtype, same numbers) *)
 Definition reshape_of (st_raw st' : store) : Prop :=
@@ -204,22 +208,24 @@ Proof.
          eexists; split; [reflexivity|]; cbn; split; reflexivity).
   - (* reduce, array result *)
     split; [exact Hr|].
+    destruct (byaxis_astype ds _ (ts_dt spc)) as [rs'|] eqn:Eb; try discriminate.
+    apply byaxis_astype_ok in Eb as [Hbd Hba].
     destruct (shape_eqb (ts_shape spc) _) eqn:Es.
     + inversion Hd; subst. split; [left; reflexivity|]. eexists; split; [reflexivity|].
       apply shape_eqb_eq in Es. unfold wraps_disc_meth.
-      eexists; exists 0%nat. split; [reflexivity|].
-      split; [rewrite byaxis_astype_dt; exact Hdt|].
+      exists rs', 0%nat. split; [reflexivity|].
+      split; [congruence|].
       split; [cbn [repeat app]; congruence|].
-      split; [auto|]. split; [auto|]. split; [discriminate|]. intros _. reflexivity.
+      split; [auto|]. split; [auto|]. split; [discriminate|]. intros _. exact Hba.
     + destruct (shape_eqb (repeat 1%nat _ ++ ts_shape spc) _) eqn:Es2; try discriminate.
       inversion Hd; subst. split; [right; eexists; eexists; reflexivity|].
       eexists; split; [reflexivity|].
       apply shape_eqb_eq in Es2. unfold wraps_disc_meth.
-      eexists; eexists. split; [reflexivity|].
-      split; [rewrite byaxis_astype_dt; exact Hdt|].
+      exists rs'; eexists. split; [reflexivity|].
+      split; [congruence|].
       split; [rewrite <- Hs; symmetry; exact Es2|].
       split; [intros Hne; congruence|].
-      split; [|split; [discriminate | intros _; reflexivity]].
+      split; [|split; [discriminate | intros _; exact Hba]].
       intros Hk. exfalso. rewrite Hk in Es2. cbn [repeat app] in Es2.
       rewrite Es2, shape_eqb_refl in Es. discriminate.
   - (* accumulate *)
